@@ -47,7 +47,7 @@ def run(chk: Check):
     chk.note(f"design variant 'parameters read from the cache': {r.error} (expected invariant:AncestralOK)")
     if r.error != "invariant:AncestralOK":
         raise MachineryError("reading cached parameters should violate AncestralOK with auto-update off")
-    traces = [S.random_trace(rng) for _ in range(120 if chk.quick else 1500)]
+    traces = S.fixed_traces() + [S.random_trace(rng) for _ in range(110 if chk.quick else 1500)]
 
     def nontrivial(t):
         cached_link = any(p["kind"] == "c" for p in t["hdr"]["plan"])
